@@ -580,6 +580,7 @@ def _manager_exprs(ctx):
 
 def _policy_options(ctx, col):
     n_opts = 0
+    undecided = []
     for m in ctx.repo.modules.values():
         parents = parents_of(m.tree)
 
@@ -631,13 +632,16 @@ def _policy_options(ctx, col):
                     extra = sorted(k for k in kw if k not in ("args", "items", None))
                     ok = not extra or extra == ["force"] and False
                     if "force" in kw or "metrics" in kw or None in kw:
-                        raise AnalysisError(f"{m.relpath}:{c.lineno} checkpoint_manager.save is passed {sorted(str(k) for k in kw)}: "
+                        undecided.append(f"{m.relpath}:{c.lineno} checkpoint_manager.save is passed {sorted(str(k) for k in kw)}: "
                                             "force / metrics interact with save policies; R12.10 cannot be decided")
+                        continue
                     col.add("R12.10", where(c), m.relpath, c.lineno, not extra,
                             "checkpoint_manager.save(step, args=...) - nothing a save policy could key on" if not extra else
                             f"checkpoint_manager.save is passed {extra}", text="manager.save keywords")
     if n_opts == 0:
         raise AnalysisError("anchor vanished: no CheckpointManagerOptions(...) construction in the package")
+    if undecided:
+        raise AnalysisError(undecided[0])
     cm = ctx.ct.get("CheckpointMixin")
     col.add("R12.10", "CheckpointMixin", cm.module.relpath, cm.node.lineno, True,
             f"{n_opts} options construction(s) and every call on a checkpoint manager examined; no step-removing manager method is called",
